@@ -51,7 +51,7 @@ def rule_flat(facts):
         r.missing_anchor("enum CastFlatten::Safe")
         return r
     # candidate functions: construct a CastExpr
-    for rec in facts.all_fns(["glaredb_core"]):
+    for rec in facts.all_fns(["glaredb_core"], contains=CASTEXPR):
         if CASTEXPR not in str(rec["locals"]):
             continue
         fn = Fn(rec)
